@@ -241,6 +241,9 @@ fn child_main(dir: &str, profile: &str, outfile: &str) {
                     swayrun::Log::Data { id, data } => format!("d{id}:{}", hex::encode(data)),
                 }).collect();
                 let panic = t.panic.clone().unwrap_or_else(|| "-".into());
+                if std::env::var("VERIF_C07_SHOWLOGS").map(|n| n == t.name).unwrap_or(false) {
+                    eprintln!("{} state={} panic={panic} logs={}", t.name, t.state, logs.join(" "));
+                }
                 let d = digest(&[t.state.clone(), panic.clone(), logs.join(",")]);
                 out.push_str(&format!("t {} {d} {} {} {} {}\n", t.name.replace(' ', "_"), t.state, panic.replace(' ', "_"), t.logs.len(), t.passed as u8));
             }
@@ -319,13 +322,20 @@ fn read_result(f: &Path) -> JobResult {
     if done { JobResult::Tests(tests) } else { JobResult::Failed("truncated".into()) }
 }
 
-fn run_jobs(jobs: &[Job], parallel: usize, timeout: Duration) -> Vec<JobResult> {
+/// `deadline`: no new child is started after it (the package is then skipped, never reported), so
+/// that a loaded machine shrinks the sample instead of running into the check's timeout.
+fn run_jobs(jobs: &[Job], parallel: usize, timeout: Duration, deadline: Instant) -> Vec<JobResult> {
     let exe = std::env::current_exe().unwrap();
     let mut results: Vec<Option<JobResult>> = jobs.iter().map(|_| None).collect();
     let mut running: Vec<(usize, Child, Instant)> = vec![];
     let mut next = 0;
     while next < jobs.len() || !running.is_empty() {
         while running.len() < parallel && next < jobs.len() {
+            if Instant::now() > deadline {
+                results[next] = Some(JobResult::Failed("time budget exhausted".into()));
+                next += 1;
+                continue;
+            }
             let j = &jobs[next];
             let mut c = Command::new(&exe);
             c.arg("--child").arg(&j.dir).arg(j.profile).arg(&j.outfile).stdout(Stdio::null()).stderr(Stdio::null());
@@ -361,7 +371,7 @@ fn run_jobs(jobs: &[Job], parallel: usize, timeout: Duration) -> Vec<JobResult> 
     results.into_iter().map(|r| r.unwrap_or(JobResult::Failed("lost".into()))).collect()
 }
 
-fn prog_lines(out: &mut impl Write, pkgs: &[Pkg], scratch: &Path, profiles: &[&'static str], parallel: usize, dump: &Path) -> usize {
+fn prog_lines(out: &mut impl Write, pkgs: &[Pkg], scratch: &Path, profiles: &[&'static str], parallel: usize, dump: &Path, deadline: Instant) -> usize {
     let mut jobs = vec![];
     for (pi, p) in pkgs.iter().enumerate() {
         for prof in profiles {
@@ -375,8 +385,8 @@ fn prog_lines(out: &mut impl Write, pkgs: &[Pkg], scratch: &Path, profiles: &[&'
             }
         }
     }
-    let timeout = Duration::from_secs(std::env::var("VERIF_C07_TIMEOUT").ok().and_then(|s| s.parse().ok()).unwrap_or(900));
-    let res = run_jobs(&jobs, parallel, timeout);
+    let timeout = Duration::from_secs(std::env::var("VERIF_C07_TIMEOUT").ok().and_then(|s| s.parse().ok()).unwrap_or(700));
+    let res = run_jobs(&jobs, parallel, timeout, deadline);
     let mut n = 0;
     // pair up opt / noopt
     let mut k = 0;
@@ -436,6 +446,7 @@ fn main() {
         return;
     }
     quiet_panics();
+    let t_start = Instant::now();
     let a = args();
     let tier = std::env::var("VERIF_TIER").unwrap_or_else(|_| "quick".into());
     let thorough = tier == "thorough";
@@ -500,7 +511,10 @@ fn main() {
             if let Some(p) = src_pkg_template(&format!("c07gen{g}"), &src, &scratch) { pkgs.push(p) }
         }
         let parallel = std::env::var("VERIF_C07_JOBS").ok().and_then(|s| s.parse().ok()).unwrap_or(6);
-        n_prog = prog_lines(&mut out, &pkgs, &scratch, &["debug", "release"], parallel, &dump);
+        // time budget for starting child builds (a started child may still take VERIF_C07_TIMEOUT)
+        let budget = std::env::var("VERIF_C07_BUDGET_S").ok().and_then(|s| s.parse().ok()).unwrap_or(if thorough { 1500 } else { 150 });
+        let deadline = t_start + Duration::from_secs(budget);
+        n_prog = prog_lines(&mut out, &pkgs, &scratch, &["debug", "release"], parallel, &dump, deadline);
         if !only_progs {
             n_harvest = harvest_lines(&mut out, &dump, &mut r, if thorough { 6 * a.n } else { 2 * a.n });
         }
